@@ -68,6 +68,7 @@ STUBS = {
     "ar.infer_backend": lambda a: "tok",
     "ar.get_dtype_name": lambda a: "tok",
     "DEBUG": False,
+    "hasher": lambda k: ("hash", repr(k)),
 }
 
 
@@ -290,6 +291,22 @@ def _subinfo_problems(ix, model, where):
     return out
 
 
+def audit_kinds(arr, symname, want_class=None):
+    """audit() with a stable kind per problem (used as the construct of a finding)"""
+    out = []
+    for pr in audit(arr, symname, want_class=want_class):
+        kind = "structure"
+        for k, pat in (("subinfo", "sub-sector"), ("subinfo", "extents"), ("sorted-table", "is not sorted"), ("positive-sizes", "positive ints"),
+                       ("sector-charge", "has signed charge"), ("sector-table", "missing from the index charge tables"),
+                       ("block-shape", "has shape"), ("pending-sign", "pending sign"), ("oddpos-parity", "odd-position labels"),
+                       ("class", "expected")):
+            if pat in pr:
+                kind = k
+                break
+        out.append((kind, pr))
+    return out
+
+
 def audit(arr, symname, want_class=None):
     """the C01 validity predicate on an abstract array: a list of human-readable problems (empty = valid)"""
     model = Model(symname)
@@ -419,9 +436,26 @@ def shaped_backend():
     def conj(t):
         return STok(("conj", t.term), t.shape)
 
-    return {"linalg.qr": qr, "linalg.svd": svd, "linalg.eigh": eigh, "linalg.solve": solve, "transpose": transpose,
+    def einsum(eq, *ops):
+        lhs, rhs = eq.split("->")
+        terms = lhs.split(",")
+        if len(terms) != len(ops):
+            raise ValueError(f"einsum {eq!r} with {len(ops)} operand(s)")
+        size = {}
+        for tm, o in zip(terms, ops):
+            if len(tm) != o.ndim:
+                raise ValueError(f"einsum {eq!r}: operand of shape {o.shape} for subscripts {tm!r}")
+            for q, d in zip(tm, o.shape):
+                if size.setdefault(q, d) != d:
+                    raise ValueError(f"einsum {eq!r}: index {q} has sizes {size[q]} and {d}")
+        return STok(("einsum", eq) + tuple(o.term for o in ops), tuple(size[q] for q in rhs))
+
+    def diag(t):
+        return STok(("diag", t.term), (min(t.shape),))
+
+    return {"diag": diag, "linalg.qr": qr, "linalg.svd": svd, "linalg.eigh": eigh, "linalg.solve": solve, "transpose": transpose,
             "reshape": reshape, "tensordot": tensordot, "matmul": matmul, "zeros": zeros, "concatenate": concatenate,
-            "conj": conj}
+            "conj": conj, "einsum": einsum}
 
 
 class ZTok(STok):
@@ -452,6 +486,8 @@ def shaped_libfn(table=None):
     table = table or shaped_backend()
 
     def get(backend, name):
+        if name == "qr_stabilized":
+            raise ImportError("the plain backends do not provide qr_stabilized")
         if name in table:
             return table[name]
         short = name.split(".")[-1]
@@ -476,5 +512,18 @@ def shaped_evaluator(prog, extra=None, max_steps=400000):
         "ar.ndim": lambda t: t.ndim,
         "ar.do": lambda name, *a, like=None, **kw: get(like, name)(*a, **kw),
     }
+    st["find_full_reshape"] = _find_full_reshape
     st.update(extra or {})
     return evaluator(prog, extra=st, max_steps=max_steps)
+
+
+def _find_full_reshape(newshape, size):
+    """model of autoray.lazy.core.find_full_reshape: resolve a single -1"""
+    newshape = tuple(newshape)
+    if -1 not in newshape:
+        return newshape
+    known = 1
+    for d in newshape:
+        if d != -1:
+            known *= d
+    return tuple(size // known if d == -1 else d for d in newshape)
